@@ -301,9 +301,27 @@ func Evaluate(ctx *core.Ctx, prop string, c Case, res *Result) {
 	default:
 		ctx.Count("family/barrier-per-frame")
 	}
+	ctx.Count(fmt.Sprintf("config/enable-debug-logs=%v", c.Params.DebugLogs))
+	ctx.Count("config/stream-processor-factories=" + []string{"none", "bypassed", "pass-through", "pass-through+bypassed"}[c.Params.Procs&3])
+	sensBlocks := 0
 	for i := range res.Ops {
 		op := &res.Ops[i]
 		ctx.Count("op/" + op.Kind)
+		if isBlockOp(op.Kind) && len(op.Fields) > 0 {
+			sens, raw := false, 0
+			for _, f := range op.Fields {
+				ctx.Count("hpack/field-drawn-as/" + repLabel(f))
+				sens = sens || f.Sens
+				if f.Raw {
+					raw++
+				}
+			}
+			ctx.CountN("hpack/fields-written-by-the-rig's-own-literal-writer", op.RawSent)
+			ctx.CountN("hpack/raw-fields-left-to-the-encoder-behind-a-pending-size-update", raw-op.RawSent)
+			if sens {
+				sensBlocks++
+			}
+		}
 		if op.Kind == "burst" {
 			countBurst(ctx, op)
 		}
@@ -393,6 +411,9 @@ func Evaluate(ctx *core.Ctx, prop string, c Case, res *Result) {
 				}
 			}
 		}
+	}
+	if sensBlocks > 0 {
+		ctx.Count(fmt.Sprintf("config/header-lists-with-a-never-indexed-field-relayed-with-debug-logs=%v", c.Params.DebugLogs))
 	}
 	ctx.Count(fmt.Sprintf("streams=%d", len(streams)))
 	switch n := len(res.Ops); {
@@ -503,6 +524,18 @@ func Evaluate(ctx *core.Ctx, prop string, c Case, res *Result) {
 		}
 		for _, d := range res.DataBad {
 			ctx.SpecFail(clausesOf["C10"]["fidelity"], "", replay, d, "DATA octets received differ from the octets sent")
+		}
+		// Model/H2Headers.lean: the list the relay hands to its encoder for a decoded list under this
+		// configuration (`relayList`) is what the receiving endpoint decodes - names, values, never-indexed marks
+		for _, o := range res.HdrObs {
+			ctx.Count("hpack/header-lists-compared-with-the-model")
+			model := ctx.Model.MustAsk("C10", "hlist", core.B01(c.Params.DebugLogs), o.Sent)
+			if model != o.Got {
+				// (F21 makes a receiver decode another list without the relay having changed one: same class as for the checker's clause)
+				class := Classify("fidelity", nil, fmt.Sprintf("%s:%d:list", o.Side, o.Sid), res.Ops, res.OpIndex, 0)
+				ctx.SpecFail(clausesOf["C10"]["fidelity"], class, replay, fmt.Sprintf("%s stream %d decoded %s", o.Side, o.Sid, o.Got),
+					fmt.Sprintf("header list decoded by %s on stream %d differs from Model.H2Headers.relayList (enable-debug-logs=%v) of the list sent: model %s", o.Side, o.Sid, c.Params.DebugLogs, model))
+			}
 		}
 		for _, d := range res.DecodeErr {
 			ctx.Count("receiver/hpack-decode-error")
@@ -690,9 +723,17 @@ func MakeCases(ctx *core.Ctx, n int, flowOnly bool) []Case {
 			c.Params.TblEpisodes = r.Range(1, 2)
 			c.Params.TblAdopt = r.Chance(85)
 		}
+		drawConfig(r, &c.Params)
 		cs = append(cs, c)
 	}
 	return cs
+}
+
+// drawConfig draws the options of h2.Config that must not change a relayed octet (drawn last: the
+// schedules of the other dimensions stay what they were).
+func drawConfig(r *core.Rand, p *Params) {
+	p.DebugLogs = r.Chance(50)
+	p.Procs = core.Pick(r, []int{0, 0, 1, 2, 2, 3})
 }
 
 // MakeConcCases: the concurrent family (gen_conc.go).
@@ -700,7 +741,9 @@ func MakeConcCases(ctx *core.Ctx, n int) []Case {
 	var cs []Case
 	for i := 0; i < n; i++ {
 		r := ctx.Rng.Sub()
-		cs = append(cs, Case{Kind: "h2", Seed: r.U64(), Params: Params{Conc: r.Range(8, 14)}, TimeoutMs: 20000})
+		c := Case{Kind: "h2", Seed: r.U64(), Params: Params{Conc: r.Range(8, 14)}, TimeoutMs: 20000}
+		drawConfig(r, &c.Params)
+		cs = append(cs, c)
 	}
 	return cs
 }
@@ -733,7 +776,9 @@ func MakeE2ECases(ctx *core.Ctx, n int) []Case {
 		}
 		e.HoldMs = largest * r.Range(3, 5)
 		p := Params{NOps: r.Range(16, 40), Streams: r.Range(1, 3), Tbl0C: r.Chance(50), Tbl0S: r.Chance(50), Profile: r.Intn(4), E2E: e}
-		cs = append(cs, Case{Kind: "h2", Seed: r.U64(), Params: p, TimeoutMs: 10000})
+		c := Case{Kind: "h2", Seed: r.U64(), Params: p, TimeoutMs: 10000}
+		drawConfig(r, &c.Params)
+		cs = append(cs, c)
 	}
 	return cs
 }
